@@ -80,6 +80,8 @@ M = [
     ("C19", "revert-F8-unquoted-version", "ncs/root_with_nordic_top_envelope.yaml.jinja2", '    suit-current-version: "{{ APP_ROOT_VERSION }}"', "    suit-current-version: {{ APP_ROOT_VERSION }}"),
     ("C20", "rc-alpha-swapped", S + "suit/manifest.py", "            alpha = -3\n            beta = -2\n            rc = -1", "            alpha = -1\n            beta = -2\n            rc = -3"),
     ("C20", "patch-shift-12", "ncs/build.py", '            + (int(version["PATCHLEVEL"]) << 8)\n        )\n        if "VERSION_TWEAK" in version:\n            default_seq_num', '            + (int(version["PATCHLEVEL"]) << 12)\n        )\n        if "VERSION_TWEAK" in version:\n            default_seq_num'),
+    ("C20", "scfw-minor-shift-8", "ncs/build.py", '            + (int(version["SYSCTRL_VERSION_MINOR"]) << 16)\n', '            + (int(version["SYSCTRL_VERSION_MINOR"]) << 8)\n'),
+    ("C20", "scfw-extra-copied-verbatim", "ncs/build.py", '            elif len(version["SYSCTRL_VERSION_EXTRA"]) > 0:\n                # Use the least important pre-release tag for unsupported values\n                default_scfw_version += "-alpha"', '            elif len(version["SYSCTRL_VERSION_EXTRA"]) > 0:\n                default_scfw_version += "-" + version["SYSCTRL_VERSION_EXTRA"]'),
     ("C20", "label-positive", S + "suit/manifest.py", "            alpha = -3\n            beta = -2\n            rc = -1", "            alpha = 1\n            beta = 2\n            rc = 3"),
 ]
 EXTRA_SETUP = {
